@@ -27,7 +27,8 @@ Qed.
 
 Theorem load_identity d :
   d_sc d = d_st d -> d_sc d <> [] ->
-  load d = Some (mkld false [] [] (map (single_rows d) (seq 0 (length (d_tmpl d)))) (n_templates d)).
+  load d = Some (mkld false [] (setdiff_arange (length (d_tmpl d)) (d_st d))
+                      (map (single_rows d) (seq 0 (length (d_tmpl d)))) (n_templates d)).
 Proof.
   intros E Hne. unfold load. rewrite E, Nat.eqb_refl. cbn [negb].
   rewrite E in Hne. destruct (d_st d) as [|x r] eqn:Est; [congruence|].
